@@ -1771,6 +1771,7 @@ enum {
     OP_TD_ORDER,       /* from now on loops dispatch the last ready pump first (affects the teardown as well) */
     OP_PROVIDE,        /* (--prov 2) the sinks answer the uref_mgr / uclock / ubuf_mgr requests they have been keeping */
     OP_NEED_OUTPUT,    /* from now on the application answers 'need_output' by connecting the accepting sink S2 */
+    OP_SUB1_FLOW,      /* rows with input subpipes: the second input gets a definition announcing a latency (what its siblings advertise may change) */
     OP_RELEASE,
     NOPS
 };
@@ -1812,6 +1813,7 @@ static void opstr(int op, char *b, size_t n)
     else if (op == OP_TD_ORDER) snprintf(b, n, "loops dispatch the last ready pump first");
     else if (op == OP_PROVIDE) snprintf(b, n, "sinks answer the requests they kept");
     else if (op == OP_NEED_OUTPUT) snprintf(b, n, "application answers need_output with set_output(S4)");
+    else if (op == OP_SUB1_FLOW) snprintf(b, n, "sub1.set_flow_def(F1 with latency 5000)");
     else if (op == OP_RELEASE) snprintf(b, n, "release");
     else snprintf(b, n, "op%d", op);
 }
@@ -2226,6 +2228,13 @@ static int apply_side(struct st *st, struct side *s, int op, bool primary)
         px_provide_pending(fx);
     } else if (op == OP_NEED_OUTPUT) {
         s->need_output_react = true;
+    } else if (op == OP_SUB1_FLOW) {
+        struct uref *f = px_flow(fx, g_row->in_def ? g_row->in_def : "block.", 1);
+        if (g_row->flow_fix)
+            g_row->flow_fix(f, 1);
+        ubase_assert(uref_clock_set_latency(f, 5000));
+        e = upipe_set_flow_def(s->subs[1], f);
+        uref_free(f);
     } else if (op == OP_RELEASE) {
         if (s->up_registered) { /* a requester withdraws its request before letting go of the pipe */
             upipe_unregister_request(s->pipe, &s->up_req);
@@ -2302,6 +2311,8 @@ static bool op_enabled(struct st *st, int op)
         return r->uses_pumps && !s->td_last;
     if (op == OP_PROVIDE)
         return g_prov == 2 && px_pending_requests(&s->fx) > 0;
+    if (op == OP_SUB1_FLOW)
+        return r->sub_io && s->subs[1] != NULL;
     if (op == OP_NEED_OUTPUT)
         return r->kind == K_ONE2ONE && !r->has_subs && !s->need_output_react && !s->up_registered;
     return true;
@@ -2426,6 +2437,35 @@ static int apply(void *vst, int op, bool check)
         opstr(op, ob, sizeof(ob));
         snprintf(when, sizeof(when), "after step %d: %s", st->nops, ob);
         run_getters(st, &st->a, when);
+    }
+
+    /* ---- C04: a sink that was given a buffer during this step must have accepted, as its last definition, the one the pipe
+     * advertises now (a definition amended in place never reaches the output) ---- */
+    if ((g_oracle & O_C04) && !st->released) {
+        struct { struct upipe *p; int sink; } outs[3] = {{st->a.tail ? st->a.tail : st->a.pipe, g_row->sub_io || g_row->flowdef_in_band ? -1 : st->out - 1},
+                                                          {st->a.subs[0], st->om[1].live && st->om[1].out ? st->om[1].out - 1 : -1},
+                                                          {st->a.subs[1], st->om[2].live && st->om[2].out ? st->om[2].out - 1 : -1}};
+        for (int oi = 0; oi < 3; oi++) {
+            if (outs[oi].p == NULL || outs[oi].sink < 0)
+                continue;
+            bool got = false;
+            for (int i = srec0; i < fx->nsrec; i++)
+                got |= fx->srec[i].kind == PXS_INPUT && fx->srec[i].sink == outs[oi].sink;
+            if (!got)
+                continue;
+            struct uref *fd = NULL;
+            if (!ubase_check(upipe_get_flow_def(outs[oi].p, &fd)) || fd == NULL)
+                continue;
+            char now[sizeof(fx->srec[0].attrs)];
+            px_attr_dump(fd, now, sizeof(now));
+            const struct px_srec *last = NULL;
+            for (int i = 0; i < fx->nsrec; i++)
+                if (fx->srec[i].kind == PXS_FLOWDEF && fx->srec[i].sink == outs[oi].sink)
+                    last = &fx->srec[i];
+            if (last != NULL && last->result == UBASE_ERR_NONE && strcmp(last->attrs, now))
+                FAIL(st, "flow:definition-changed-without-set_flow_def", "sink %d received a buffer, the last definition it accepted is [%s] but the pipe now advertises [%s]",
+                     outs[oi].sink, last->attrs, now);
+        }
     }
 
     /* ---- C05, synchronous part for one-to-one pipes ---- */
